@@ -1336,6 +1336,24 @@ def rule_once_c18(ctx):
     good = [n for n in divs if norm(expand_aliases(f, n.left)) == rootp and norm(expand_aliases(f, n.right)) == f"{var}.path"]
     inst = {"re-rooting": [norm(n) for n in divs]}
     r.instances.append(inst)
+    # ... and that division, nothing else, is the path the new rule is built with
+    built = [n for n in ast.walk(loop) if isinstance(n, ast.Call) and norm(n.func) == "Rule"]
+    for b in built:
+        pv = next((k.value for k in b.keywords if k.arg == "path"), b.args[0] if b.args else None)
+        pv = expand_aliases(f, pv) if pv is not None else None
+        if isinstance(pv, ast.Name):
+            asg = [a for a in ast.walk(loop) if isinstance(a, ast.Assign) and len(a.targets) == 1 and isinstance(a.targets[0], ast.Name) and a.targets[0].id == pv.id]
+            pv = asg[0].value if len(asg) == 1 else pv
+        inst2 = {"new rule's path": norm(pv) if pv is not None else None}
+        r.instances.append(inst2)
+        if pv is not None and isinstance(pv, ast.BinOp) and any(pv is g or norm(pv) == norm(g) for g in good):
+            r.ok()
+        elif pv is not None and any(isinstance(x, ast.IfExp) for x in ast.walk(pv)):
+            r.fail(Finding("R-ONCE/C18", "R-ONCE|schema.Schema.add_schema|path-conditional", f"{f.file}:{b.lineno}",
+                           f"`path={norm(pv)[:90]}`: the added rule's path is `{rootp} / {var}.path` only on one arm of a conditional; the other arm does not go through the "
+                           f"concatenation, which is what carries the rule path's parts *and* its datum / multiplicity modifier (a root rule `DataPath().length()` would judge the value, not its length)", []))
+        else:
+            r.undecided.append(inst2)
     if good and len(good) == len(divs):
         r.ok()
     else:
@@ -1730,6 +1748,41 @@ def rule_guarded(ctx):
             else:
                 r.fail(Finding("R-GUARDED", "R-GUARDED|datapath.DataPath.to_part_specs|explicit", f"{g.file}:{n.lineno}",
                                f"the explicit spec `{norm(n)[:90]}` reads a condition's arguments directly instead of the value simplify() vouches for", []))
+            # ... and its "type" names the class of the part it stands for: established by a class test on the part, or by
+            # a type test on the plain value that is exactly the constructor's conversion for that class
+            tname = next((v.value for k, v in zip(n.keys, n.values) if isinstance(k, ast.Constant) and k.value == "type" and isinstance(v, ast.Constant)), None)
+            cls_of = {"map_value": "MapValue", "list_value": "ListValue", "map_or_list_value": "MapOrListValue"}.get(tname)
+            if cls_of is None:
+                r.undecided.append({"explicit spec": norm(n)[:100], "what": "type is not a literal part-type name"})
+                continue
+            efacts = facts_at(prog, g, n, canon)
+            pos, neg = set(), set()
+            for ftxt in efacts:
+                try:
+                    e = ast.parse(ftxt, mode="eval").body
+                except SyntaxError:
+                    continue
+                negated = isinstance(e, ast.UnaryOp) and isinstance(e.op, ast.Not)
+                c = e.operand if negated else e
+                if isinstance(c, ast.Call) and norm(c.func) == "isinstance" and len(c.args) == 2:
+                    t = c.args[1]
+                    ts = frozenset(norm(x) for x in (t.elts if isinstance(t, ast.Tuple) else [t]))
+                    (neg if negated else pos).add(ts)
+            others = {"MapValue", "ListValue", "MapOrListValue"} - {cls_of}
+            by_class = frozenset({cls_of}) in pos or (cls_of == "MapOrListValue" and frozenset({"MapValue"}) in neg and not conv.get("ListValue"))
+            by_value = conv.get(cls_of) is not None and (any(t <= conv[cls_of] for t in pos)
+                                                         or (cls_of == "MapOrListValue" and conv.get("MapValue") is not None and any(t >= conv["MapValue"] for t in neg)))
+            inst = {"explicit spec type": tname, "class established by": sorted(sorted(x) for x in pos) + [["not"] + sorted(x) for x in neg]}
+            r.instances.append(inst)
+            if by_class or by_value:
+                r.ok()
+            elif pos or neg:
+                r.fail(Finding("R-GUARDED", f"R-GUARDED|datapath.DataPath.to_part_specs|explicit-class|{tname}", f"{g.file}:{n.lineno}",
+                               f"the explicit spec of type '{tname}' is written under the tests {inst['class established by']}, which do not establish that the part is a {cls_of} "
+                               f"(the constructor turns {sorted(conv.get('MapValue') or [])} into a map part and {sorted(conv.get('MapOrListValue') or [])} into a map-or-list part): "
+                               f"e.g. a float map key is written as a map-or-list part, which also matches a list index", []))
+            else:
+                r.undecided.append(inst)
     for b in bare:
         facts = facts_at(prog, g, b, cg)
         inst = {"bare spec": norm(b), "under": sorted(facts)}
@@ -1741,6 +1794,43 @@ def rule_guarded(ctx):
         else:
             r.fail(Finding("R-GUARDED", f"R-GUARDED|datapath.DataPath.to_part_specs|bare-type", f"{g.file}:{b.lineno}",
                            f"the bare spec `{norm(b)}` may only be emitted for a part whose condition is null and which has no label (facts established: {sorted(facts)})", []))
+    # "is this path bound to a document of its own?" must be asked the same way where the binding is *used* (get_data)
+    # and where it makes the path unserialisable (to_part_specs): truthiness and `is not None` differ on an empty document
+    def binding_tests(fn):
+        out = set()
+        for n in ast.walk(fn.node):
+            tests = []
+            if isinstance(n, (ast.If, ast.IfExp, ast.While)):
+                tests.append(n.test)
+            for t in tests:
+                stack = [t]
+                while stack:
+                    e = stack.pop()
+                    if isinstance(e, ast.BoolOp):
+                        stack.extend(e.values)
+                    elif isinstance(e, ast.UnaryOp) and isinstance(e.op, ast.Not):
+                        stack.append(e.operand)
+                    elif isinstance(e, ast.Attribute) and norm(e) == "self.source_data":
+                        out.add("truthiness")
+                    elif isinstance(e, ast.Compare) and norm(e.left) == "self.source_data" and len(e.ops) == 1 and isinstance(e.ops[0], (ast.Is, ast.IsNot)) \
+                            and isinstance(e.comparators[0], ast.Constant) and e.comparators[0].value is None:
+                        out.add("is (not) None")
+                    elif isinstance(e, ast.Compare) and norm(e.left) == "self.source_data":
+                        out.add(f"other: {norm(e)}")
+        return out
+    gd = prog.flat("datapath.DataPath.get_data")
+    used, refused = binding_tests(gd), binding_tests(g)
+    inst = {"own-document binding tested in get_data by": sorted(used), "in to_part_specs by": sorted(refused)}
+    r.instances.append(inst)
+    if used and refused and len(used) == 1 and len(refused) == 1:
+        if used == refused:
+            r.ok()
+        else:
+            r.fail(Finding("R-GUARDED", "R-GUARDED|datapath.DataPath.to_part_specs|binding-test", f"{g.file}:{g.node.lineno}",
+                           f"get_data decides whether the path reads its own bound document by {sorted(used)[0]}, to_part_specs decides whether to refuse a bound path by {sorted(refused)[0]}: "
+                           f"for a path bound to an empty document the two disagree, and the path is serialised although the rebuilt (unbound) path selects from the caller's document", []))
+    else:
+        r.undecided.append(inst)
     prim = [n for n in ast.walk(g.node) if isinstance(n, ast.Subscript) and isinstance(n.slice, ast.Constant) and n.slice.value == "value" and "kwargs" in norm(n.value)]
     inst = {"to_part_specs uses simplify()": "self.simplify()" in ast.unparse(g.node), "refusals": len([n for n in ast.walk(g.node) if isinstance(n, ast.Raise)])}
     r.instances.append(inst)
